@@ -124,15 +124,15 @@ KeyedMatches(l, keyobj) ==
 (***************************************************************************)
 (* Strict strategy.                                                        *)
 (***************************************************************************)
-RECURSIVE PS(_, _, _)
-PS(n, p, h) ==
+RECURSIVE PS(_, _, _, _)
+PS(n, p, h, dev) ==
   IF p = <<>> THEN Replace(n, h)
   ELSE
     LET e == Head(p)  rest == Tail(p) IN
     CASE e.k = "key" ->
            IF ~IsObj(n) THEN Err
            ELSE LET child == IF HasKey(n, e.v) THEN n.v[e.v] ELSE Void
-                    r == PS(child, rest, h)
+                    r == PS(child, rest, h, dev)
                 IN IF Bad(r) THEN r
                    ELSE IF IsVoid(r) THEN ObjDel(n, e.v)
                    ELSE ObjPut(n, e.v, r)
@@ -140,7 +140,7 @@ PS(n, p, h) ==
            IF ~IsArr(n) THEN Err
            ELSE IF rest = <<>> THEN Splice(n.v, e.v, h)
            ELSE IF e.v < 0 \/ e.v >= Len(n.v) THEN Err
-           ELSE LET r == PS(n.v[e.v + 1], rest, h)
+           ELSE LET r == PS(n.v[e.v + 1], rest, h, dev)
                 IN IF Bad(r) THEN r
                    ELSE IF IsVoid(r) THEN Err
                    ELSE Arr(SeqReplace(n.v, e.v + 1, r))
@@ -154,8 +154,9 @@ PS(n, p, h) ==
                 IF M = {} THEN Err
                 ELSE IF Cardinality(M) > 1 THEN Amb
                 ELSE LET i == CHOOSE j \in M : TRUE
-                         r == PS(n.v[i], rest, h)
-                     IN IF Bad(r) THEN r
+                         r == PS(n.v[i], rest, h, dev)
+                     IN IF IsErr(r) /\ "keyed-member-error-discarded" \in dev THEN n
+                        ELSE IF Bad(r) THEN r
                         ELSE IF IsVoid(r) THEN Err
                         ELSE Arr(SeqReplace(n.v, i, r))
       [] OTHER -> Err        \* "msetkeys" is not implemented by the patcher
@@ -183,9 +184,12 @@ MergeShapeOK(h) ==
   /\ \A i \in DOMAIN h.remove : IsVoid(h.remove[i])
   /\ Len(h.remove) <= 1
 
-ApplyHunk(doc, h) ==
+(* dev: the set of named deviations (Deviations of the code from this semantics that are
+   listed in /verif/known_findings.json) under which the hunk is interpreted; {} = ideal *)
+ApplyHunkD(doc, h, dev) ==
   IF h.merge THEN (IF MergeShapeOK(h) THEN PM(doc, h.path, h) ELSE Err)
-  ELSE PS(doc, h.path, h)
+  ELSE PS(doc, h.path, h, dev)
+ApplyHunk(doc, h) == ApplyHunkD(doc, h, {})
 
 RECURSIVE ApplyAll(_, _)
 ApplyAll(doc, hs) ==
